@@ -11,9 +11,10 @@ Section WalkProps.
   Hypothesis keqb_spec : forall a b, keqb a b = true <-> a = b.
   Variable expand : node -> outcome * list (@edge node key).
   Variable onerr : outcome.
+  Variable persist : bool.
   Notation memk := (memk keqb).
-  Notation go := (go keqb onerr true).
-  Notation walk := (walk keqb expand onerr true).
+  Notation go := (go keqb onerr true persist).
+  Notation walk := (walk keqb expand onerr true persist).
 
   Definition unseenL (L:list key) (vis:list key) : nat := length (filter (fun k => negb (memk k vis)) L).
 
@@ -67,7 +68,7 @@ Section WalkProps.
     pose proof (Hrec n' (k :: vis)) as Hi. destruct (rec n' (k :: vis)) as [o v2]. cbn [snd] in Hi.
     assert (incl vis v2) by (intros x Hx; apply Hi; right; exact Hx).
     destruct o; cbn [snd]; try assumption.
-    eapply incl_tran; [eassumption|apply IH].
+    destruct persist; [eapply incl_tran; [eassumption|apply IH]|apply IH].
   Qed.
 
   Lemma walk_incl : forall fuel n vis, incl vis (snd (walk fuel n vis)).
@@ -101,7 +102,7 @@ Section WalkProps.
     pose proof (Hrec n' (k :: vis) Hlt) as Hf. pose proof (Hinc n' (k :: vis)) as Hi.
     destruct (rec n' (k :: vis)) as [o v2]. cbn [fst snd] in Hf, Hi.
     destruct o; try discriminate Hf.
-    - apply IH; try assumption.
+    - apply IH; try assumption. destruct persist; [|exact Hm].
       assert (incl vis v2) by (intros x Hx; apply Hi; right; exact Hx).
       pose proof (unseen_mono vis v2 H). lia.
     - cbn [fst]. exact Honerr.
